@@ -261,8 +261,19 @@ def _exhaustive():
     return cases
 
 
+def _maybe_floats(rng, c):
+    """binary floats as samples / parameters when every number of the case is dyadic (float arithmetic is then exact)"""
+    if c["entry"] not in ("accumulate", "clip", "zcross", "unwrap") or c.get("ints") or rng.random() > 0.35:
+        return c
+    nums = list(c["xs"]) + [c[k] for k in ("low", "high", "hysteresis", "first_sign", "max_delta", "step")
+                            if c.get(k) is not None]
+    if all(_is_dyadic(dec(v)) for v in nums):
+        c["floats"] = True
+    return c
+
+
 def generate(rng, tier, scale=1):
-    total = (3600 if tier == "quick" else 60000) * scale
+    total = (8000 if tier == "quick" else 60000) * scale
     cases = []
     if scale == 1:
         cases.extend(_exhaustive())
@@ -272,7 +283,7 @@ def generate(rng, tier, scale=1):
     wsum = sum(w for _, w in GENS)
     for g, w in GENS:
         for _ in range(total * w // wsum):
-            cases.append(g(rng, tier))
+            cases.append(_maybe_floats(rng, g(rng, tier)))
     return cases
 
 
@@ -283,12 +294,14 @@ def _vals(c):
     xs = decl(c["xs"])
     if c.get("ints"):
         xs = [int(x) for x in xs]
+    elif c.get("floats"):
+        xs = [float(x) for x in xs]
     return xs
 
 
-def _num(j, ints=False):
+def _num(j, ints=False, floats=False):
     v = dec(j)
-    return int(v) if ints else v
+    return int(v) if ints else float(v) if floats else v
 
 
 def _run(thunk):
@@ -352,8 +365,8 @@ def impl(c):
         obs["def_squared"] = _run(lambda: f(x ** 2 for x in xs))
         return obs
     if e == "clip":
-        lo = None if c["low"] is None else dec(c["low"])
-        hi = None if c["high"] is None else dec(c["high"])
+        lo = None if c["low"] is None else _num(c["low"], False, c.get("floats"))
+        hi = None if c["high"] is None else _num(c["high"], False, c.get("floats"))
         route = c.get("route", "args")
         if route == "default":
             call = lambda s: al.clip(s)
@@ -367,20 +380,20 @@ def impl(c):
             obs["twice"] = _run(lambda: call(decl(out)))
         return obs
     if e == "zcross":
-        h = _num(c["hysteresis"], c.get("ints"))
-        fs = _num(c["first_sign"], isinstance(c["first_sign"], int))
+        h = _num(c["hysteresis"], c.get("ints"), c.get("floats"))
+        fs = _num(c["first_sign"], isinstance(c["first_sign"], int) and not c.get("floats"), c.get("floats"))
         if c.get("route") == "default":
             return {"out": _run(lambda: al.zcross(iter(xs)))}
         return {"out": _run(lambda: al.zcross(iter(xs), hysteresis=h, first_sign=fs))}
     if e == "unwrap":
-        md = _num(c["max_delta"], c.get("ints"))
-        st = _num(c["step"], c.get("ints"))
+        md = _num(c["max_delta"], c.get("ints"), c.get("floats"))
+        st = _num(c["step"], c.get("ints"), c.get("floats"))
         return {"out": _run(lambda: al.unwrap(iter(xs), max_delta=md, step=st))}
     raise ValueError("unknown entry " + e)
 
 
 def request(c):
-    r = {k: v for k, v in c.items() if k not in ("ints", "route", "zmode", "cutoff", "lp")}
+    r = {k: v for k, v in c.items() if k not in ("ints", "floats", "route", "zmode", "cutoff", "lp")}
     if c["entry"] == "envelope":
         f = _lowpass(c)
         den = [F(x) for x in f.denominator]
@@ -575,6 +588,8 @@ def tally(eng, c, io):
             eng.count("unwrap_effect", "changed" if out != xs else "identity")
     if c.get("ints"):
         eng.count("input_kind", e + ":int")
+    elif c.get("floats"):
+        eng.count("input_kind", e + ":float (dyadic, exact)")
     else:
         eng.count("input_kind", e + ":Fraction")
     for k, v in io.items():
@@ -646,6 +661,8 @@ def _shrink(c):
                 yield dict(c, **{k: s})
     if c.get("ints"):
         yield dict(c, ints=False)
+    if c.get("floats"):
+        yield dict(c, floats=False)
     if c.get("route") in ("stream",):
         yield dict(c, route="args")
     if c["entry"] == "envelope" and c.get("cutoff") != 0.5:
